@@ -10,9 +10,18 @@
      `_keys_dict : key -> key tuple`, `_inv_dict : value -> key tuple`,
      the `dict` storage itself `key tuple -> value`.
   Python exceptions predicted by the model: `none` = `KeyError` for the MultiKeyDict
-  operations, `Except Err` (`KeyError` / `AttributeError`) for the StrategyDict ones.  An
-  exception leaves the model state unchanged; in the real code the only statement that can raise
-  in a coherent state is the first one of each method, before any mutation.
+  operations, `Except Err` (`KeyError` / `AttributeError`) for the StrategyDict ones.  A
+  `KeyError` / `AttributeError` leaves the model state unchanged; in the real code the only
+  statement that can raise one of them in a coherent state is the first one of each method, before
+  any mutation.
+
+  Operands that cannot be hashed (a `list` / `dict` / `set`, an object without `__hash__`, an
+  object whose `__hash__` raises) are *rejected*: result `Res.rejected` (`TypeError`, or whatever
+  the operand's own `__hash__` raises).  They are separate constructors of `Op` / `SOp`, so that
+  `K` and `V` stay the types of the hashable keys and values.  The model follows the code as it
+  is today, statement by statement, so a rejected operation can fail HALF-WAY: the exception
+  comes out of the statement that first hashes the operand and everything done before it stays
+  done (`setitemBadKey`, `sdSetRefused`).
 -/
 namespace ALV.C15
 
@@ -141,6 +150,39 @@ def setitem (s : St K V) (keys : List K) (value : V) : Option (St K V) :=
            invDict := dset s1.invDict value key
            store := dset s1.store key value }
 
+/-- result of one operation (`keyError` = the call raised `KeyError`, `rejected` = the call raised
+    because an operand cannot be hashed: `TypeError`, or the exception of the operand's `__hash__`) -/
+inductive Res (K V : Type) where
+  | done | keyError | attrError | notImpl
+  | val (v : V) | keys (t : List K) | num (n : Nat)
+  | rejected
+  deriving DecidableEq
+
+/-- `MultiKeyDict.__setitem__(keys, value)` with an UNHASHABLE `value` (`d[k] = []`): the first
+    statement that touches the value, `if value in self._inv_dict`, hashes it and raises before
+    anything is changed.  (`keys` may contain anything.) -/
+def setitemUnhashable (s : St K V) (_keys : List K) : St K V × Res K V := (s, .rejected)
+
+/-- the keys that `__setitem__` has already deleted when it meets the unhashable key `BAD` of the
+    key tuple `before ++ (BAD,) ++ after`: the value's old keys are prepended and the tuple is
+    de-duplicated (both by `==` on the keys, nothing is hashed yet), then "Remove the overwritten
+    data" walks the tuple and hashes key after key (`k in self._keys_dict`) -/
+def badKeyPrefix (s : St K V) (before after : List K) (value : V) : List K :=
+  let old := match dget s.invDict value with
+    | some old => old
+    | none => []
+  let key : List (Option K) := dedupLastCode ((old ++ before).map some ++ none :: after.map some)
+  (key.takeWhile (fun k => k.isSome)).filterMap id
+
+/-- `MultiKeyDict.__setitem__` with a hashable value and a key tuple `before ++ (BAD,) ++ after`
+    holding one UNHASHABLE key (`d[("c", [])] = 1`, `d[[]] = 1`): as the code is today the
+    exception comes out of the deletion loop, after the keys in front of `BAD` (the value's own old
+    keys included) have lost their values -/
+def setitemBadKey (s : St K V) (before after : List K) (value : V) : St K V × Res K V :=
+  match delLoop s (badKeyPrefix s before after value) with
+  | some s1 => (s1, .rejected)
+  | none => (s, .keyError)               -- not reachable from a coherent state
+
 /-- operations of a history -/
 inductive Op (K V : Type) where
   | set (keys : List K) (value : V)     -- `d[keys] = value` (a single key `k` is `[k]`)
@@ -150,12 +192,13 @@ inductive Op (K V : Type) where
   | key2keys (key : K)
   | value2keys (value : V)
   | len
-
-/-- result of one operation (`keyError` = the call raised `KeyError`) -/
-inductive Res (K V : Type) where
-  | done | keyError | attrError | notImpl
-  | val (v : V) | keys (t : List K) | num (n : Nat)
-  deriving DecidableEq
+  /-- `d[keys] = value`, `value` unhashable -/
+  | setUnhashable (keys : List K)
+  /-- `d[before ++ (BAD,) ++ after] = value`, `BAD` unhashable, `value` hashable -/
+  | setBadKey (before after : List K) (value : V)
+  /-- a lookup or deletion whose operand is unhashable: `d[BAD]`, `del d[BAD]`, `d.key2keys(BAD)`,
+      `d.value2keys(BAD)`, `d[(k, BAD)]` — each hashes the operand in its first statement -/
+  | badOperand
 
 def Res.ofVal : Option V → Res K V
   | none => .keyError
@@ -178,6 +221,9 @@ def step (s : St K V) : Op K V → St K V × Res K V
   | .key2keys key => (s, .ofKeys (key2keys s key))
   | .value2keys value => (s, .keys (value2keys s value))
   | .len => (s, .num (len s))
+  | .setUnhashable keys => setitemUnhashable s keys
+  | .setBadKey before after value => setitemBadKey s before after value
+  | .badOperand => (s, .rejected)
 
 /-- run a history from a state: final state and the results in order -/
 def run : St K V → List (Op K V) → St K V × List (Res K V)
@@ -285,6 +331,14 @@ def sdDefault (s : SD K V) : Option V := dget s.attrs none
 /-- `StrategyDict.__iter__` : `itervalues(self)` -/
 def sdIter (s : SD K V) : List V := storeValues s.mkd
 
+/-- `StrategyDict.__setitem__(key, value)` REFUSED by `super().__setitem__` / by the loop itself:
+    the statement `for k in keys: try: del self[k] except KeyError: pass` comes first, so as the
+    code is today the names `deleted` have already lost their strategies (and the default its
+    names) when the exception arrives.  `deleted` = all the given names when the strategy is
+    unhashable (`sd["a"] = unhashable_callable`), = the names in front of `BAD` when the key tuple
+    holds an unhashable name (`self.key2keys(BAD)` raises `TypeError`, which the loop does not catch). -/
+def sdSetRefused (s : SD K V) (deleted : List K) : SD K V × Res K V := (sdDelLoop s deleted, .rejected)
+
 inductive SOp (K V : Type) where
   | set (keys : List K) (value : V)
   | del (key : K)
@@ -295,6 +349,11 @@ inductive SOp (K V : Type) where
   | default                                 -- `sd.default`
   | call                                    -- `sd(...)` : which strategy is called
   | len
+  /-- `sd[keys] = value` refused after the names `deleted` were removed (see `sdSetRefused`) -/
+  | setRefused (deleted : List K)
+  /-- an operation refused in its first statement: `sd[BAD]`, `del sd[BAD]` with an unhashable `BAD`
+      (`self.key2keys(key)` hashes it) -/
+  | rejected
 
 def Res.ofExcept (s : SD K V) : Except Err (SD K V) → SD K V × Res K V
   | .ok s' => (s', .done)
@@ -321,6 +380,8 @@ def sdStep (s : SD K V) : SOp K V → SD K V × Res K V
   | .default => (s, .ofDefault (sdDefault s))
   | .call => (s, .ofDefault (sdDefault s))          -- `self.default(*args, **kwargs)`
   | .len => (s, .num (len s.mkd))
+  | .setRefused deleted => sdSetRefused s deleted
+  | .rejected => (s, .rejected)
 
 def sdRun : SD K V → List (SOp K V) → SD K V × List (Res K V)
   | s, [] => (s, [])
